@@ -108,5 +108,118 @@ func utf8_num_bytes_char [C12]
   ensures (2048 <= c && c < 55296) || (57343 < c && c <= 65535) ==> result == 3
   ensures 65536 <= c && c <= 1114111 ==> result == 4
   ensures c < 0 || (55296 <= c && c <= 57343) || c > 1114111 ==> result == -1
+
+// ================= libc and the opaque runtime functions (TRUSTED) =================
+func ddp_runtime_error
+  trusted
+  modifies nothing
+  ensures false
+
+// free: the block must be live and the pointer its start; afterwards the block is gone
+func free
+  trusted
+  requires p0.B != nil ==> p0.O == 0 && p0.B.$n >= 0
+  modifies nothing
+  set p0.B.$n := (p0.B == nil ? p0.B.$n : -1)
+
+// realloc (also malloc when p0 is NULL): modelled as always moving: a fresh block of p1 bytes that starts with the
+// old contents, the old block is gone. Out-of-memory (a NULL result) is not modelled.
+func realloc
+  trusted
+  freshresult
+  requires p1 > 0
+  requires p0.B != nil ==> p0.O == 0 && p0.B.$n >= 0
+  modifies nothing
+  set result.B.$n := p1
+  set p0.B.$n := (p0.B == nil ? p0.B.$n : -1)
+  ensures result.B != nil && result.O == 0
+  ensures p0.B != nil ==> (forall k int :: 0 <= k && k < p1 && k < old(p0.B.$n) ==> result.B.$m[k] == old(p0.B.$m[k]))
+
+func c_memcpy
+  trusted
+  requires n >= 0 && (n > 0 ==> inb(dst, n) && inb(src, n))
+  requires n > 0 && dst.B == src.B ==> dst.O + n <= src.O || src.O + n <= dst.O
+  modifies ddprt.Blk.$m
+  ensures forall b *Blk, k int :: b.$m[k] == ((b == dst.B && dst.O <= k && k < dst.O + n) ? old(src.B.$m[src.O + (k - dst.O)]) : old(b.$m[k]))
+func c_memmove
+  trusted
+  requires n >= 0 && (n > 0 ==> inb(dst, n) && inb(src, n))
+  modifies ddprt.Blk.$m
+  ensures forall b *Blk, k int :: b.$m[k] == ((b == dst.B && dst.O <= k && k < dst.O + n) ? old(src.B.$m[src.O + (k - dst.O)]) : old(b.$m[k]))
+
+func strlen
+  trusted
+  requires exists n int :: nulAt(p0, n)
+  modifies nothing
+  ensures forall n int :: nulAt(p0, n) ==> result == n
+  ensures result >= 0
+func memcmp
+  trusted
+  requires p2 >= 0 && (p2 > 0 ==> inb(p0, p2) && inb(p1, p2))
+  modifies nothing
+  ensures result == 0 <==> (forall k int :: 0 <= k && k < p2 ==> byteAt(p0, k) == byteAt(p1, k))
+
+// ================= memory.c: the single allocation entry point =================
+// C05: the caller states the block's true size (and passes the start of a live block, or NULL with size 0)
+func ddp_reallocate [C05, C12]
+  requires [C05] pointer.B != nil ==> pointer.O == 0 && pointer.B.$n == oldSize
+  requires [C05] pointer.B == nil ==> oldSize == 0
+  requires newSize >= 0 && oldSize >= 0
+  modifies ddprt.Blk.$n
+  ensures newSize == 0 ==> result.B == nil && (pointer.B != nil ==> pointer.B.$n == -1)
+  ensures newSize > 0 ==> result.B != nil && result.O == 0 && result.B.$n == newSize
+  ensures newSize > 0 && pointer.B != nil ==> (forall k int :: 0 <= k && k < newSize && k < oldSize ==> result.B.$m[k] == old(pointer.B.$m[k]))
+  // the old block is released exactly when a different one is returned
+  ensures newSize > 0 && pointer.B != nil && result.B != pointer.B ==> pointer.B.$n == -1
+  ensures newSize > 0 && result.B != pointer.B ==> fresh(result.B)
+  // no other block changes
+  ensures forall b *Blk :: (b == nil || b != pointer.B) && !(newSize > 0 && b == result.B) ==> b.$n == old(b.$n)
+
+// ================= Texts =================
+// a well-formed Text: either the canonical empty one (NULL, 0) or a block of exactly cap >= 2 bytes that ends with the
+// only NUL it contains
+spec wfStr(s *ddpstring) bool :=
+  s != nil && (s.str.B == nil ? s.cap == 0 : (s.str.O == 0 && s.cap >= 2 && s.str.B.$n == s.cap && nulAt(s.str, s.cap - 1)))
+// number of code points of a well-formed Text (lead bytes)
+spec cpCount(s *ddpstring) int := s.str.B == nil ? 0 : count(k, 0, s.cap - 1, !isCont(byteAt(s.str, k)))
+
+func ddp_string_empty [C12]
+  requires str != nil && (str.str.B != nil && str.cap > 0 ==> inb(str.str, 1))
+  modifies nothing
+  ensures wfStr(str) ==> (result <==> str.cap <= 1)
+
+func ddp_strlen [C12]
+  requires str != nil ==> wfStr(str)
+  modifies nothing
+  ensures str == nil || str.str.B == nil ? result == 0 : result == str.cap - 1
+
+func ddp_string_length [C12]
+  requires wfStr(str)
+  modifies nothing
+  ensures result == cpCount(str)
+
+func ddp_free_string [C05, C12]
+  requires wfStr(str)
+  modifies ddprt.Blk.$n
+  ensures str.str.B != nil ==> str.str.B.$n == -1
+  ensures forall b *Blk :: b == nil || b != str.str.B ==> b.$n == old(b.$n)
+
+func ddp_deep_copy_string [C05, C12]
+  requires wfStr(str) && ret != nil
+  modifies ddprt.ddpstring, ddprt.Blk.$n, ddprt.Blk.$m
+  ensures ret != str ==> wfStr(ret) && ret.cap == old(str.cap)
+  ensures ret != str && old(str.str.B) != nil ==> ret.str.B != old(str.str.B) && fresh(ret.str.B) &&
+            (forall k int :: 0 <= k && k < ret.cap ==> byteAt(ret.str, k) == old(byteAt(str.str, k)))
+  // the original is untouched, and so is every other Text and every other block
+  ensures ret != str ==> str.str == old(str.str) && str.cap == old(str.cap) && wfStr(str)
+  ensures forall s *ddpstring :: s != ret && !fresh(s) ==> s.str == old(s.str) && s.cap == old(s.cap)
+  ensures forall b *Blk :: !fresh(b) ==> b.$n == old(b.$n)
+  ensures forall b *Blk, k int :: !fresh(b) ==> b.$m[k] == old(b.$m[k])
+
+func ddp_string_equal [C12]
+  requires wfStr(str1) && wfStr(str2)
+  modifies nothing
+  // equal exactly when the byte sequences (hence the code point sequences) are equal
+  ensures result <==> (str1.cap == str2.cap && (forall k int :: 0 <= k && k < str1.cap - 1 ==> byteAt(str1.str, k) == byteAt(str2.str, k)))
 @*/
 #endif
